@@ -44,6 +44,8 @@ def main(tier, replay=None):
         # U_rand programs (imports, nested definitions, aliases, constants) as well
         for k in range(n // 10):
             pr, rng = gen.rand_case(seed, 110000 + k)
+            if k % 3 == 1:
+                pr = gen.wrap_diamond(pr, rng)       # a third file importing both others: names through two import paths
             d = scratch.sub()
             tr, proto, _ = comptrace.make_trace("c11-urand-%d-%d" % (seed, k), pr, d, want=("msgs", "refs", "lines"))
             traces.append(tr)
